@@ -19,6 +19,7 @@ pub mod pstat;
 pub mod ptime;
 pub mod pregex;
 pub mod pwalk;
+pub mod pxloop;
 pub mod pxsem;
 
 /// One property's binding to the real code.
@@ -58,6 +59,7 @@ pub fn get(name: &str) -> Option<Box<dyn Prop>> {
         "C06" => Some(Box::new(p06::P06::default())),
         "SEM" => Some(Box::new(psem::PSem::default())),
         "XSEM" => Some(Box::new(pxsem::PXSem::default())),
+        "XLOOP" => Some(Box::new(pxloop::PXLoop::default())),
         "C04" => Some(Box::new(p04::P04::default())),
         "C05" => Some(Box::new(p05::P05::default())),
         "C19" => Some(Box::new(p19::P19::default())),
